@@ -585,3 +585,4 @@ macro_rules! alloc_shrink_step {
 alloc_shrink_step!(allocs_q_n3_f2, 3, 2);
 alloc_shrink_step!(allocs_t_n4_f4, 4, 4);
 alloc_shrink_step!(allocs_t_n2_f0, 2, 0);
+alloc_shrink_step!(allocs_q_n2_f1, 2, 1);
